@@ -497,3 +497,77 @@ Proof.
     + destruct G as [Hm _]. rewrite Hm in K8. exact K8.
     + rewrite G in K8. exact K8.
 Qed.
+
+(* ---- reachable states ---- *)
+Lemma link_core_reachable : forall nt T s, wf_net nt = true -> reachable nt T s -> link_core nt s.
+Proof.
+  intros nt T s Hwf [sch Hr].
+  assert (G : forall sch s0 s1, reachable nt T s0 -> link_core nt s0 -> run nt T s0 sch = Ok s1 -> link_core nt s1).
+  { induction sch0 as [|a sch0 IH]; intros s0 s1 R0 K0 H; cbn [run] in H.
+    - injection H as <-. exact K0.
+    - destruct (step nt T s0 a) as [s2| |] eqn:E; try discriminate.
+      apply (IH s2 s1); auto.
+      + eapply reachable_step; eauto.
+      + destruct (life'_reachable nt T s0 Hwf R0) as [Hs I]. eapply link_core_step; eauto. }
+  apply (G sch (init nt) s); auto.
+  - exists []. reflexivity.
+  - apply link_core_init.
+Qed.
+
+(* the source clauses follow from the history of incarnations (ExecMain) *)
+Lemma has_src_evs : forall P p, (forall e, P e = true -> ExecMain.is_src_ev e = true) ->
+  has P (ExecMain.src_evs p) = has P p.
+Proof.
+  intros P p HP. unfold has, ExecMain.src_evs. induction p as [|e p IH]; cbn; auto.
+  destruct (ExecMain.is_src_ev e) eqn:E; cbn; rewrite IH; auto.
+  destruct (P e) eqn:EP; auto. rewrite (HP e EP) in E. discriminate.
+Qed.
+
+Lemma src_running_src_evs : forall p, src_running (ExecMain.src_evs p) = src_running p.
+Proof.
+  unfold ExecMain.src_evs. induction p as [|e p IH]; cbn; auto.
+  destruct e; cbn; auto.
+Qed.
+
+Lemma nil_end_failed : forall k, any_nil_end (ExecMain.failed k) = false.
+Proof. induction k; cbn; auto. Qed.
+
+Lemma src_clauses : forall s, ExecMain.src_history s ->
+  any_nil_end (tr s) = match src s with SClosed => true | _ => false end
+  /\ src_running (tr s) = match src s with SRunning _ => true | _ => false end.
+Proof.
+  intros s Hh. unfold ExecMain.src_history in Hh.
+  rewrite <- src_running_src_evs. unfold any_nil_end.
+  rewrite <- (has_src_evs _ (tr s)) by (intros [] He; try discriminate; reflexivity).
+  destruct (src s).
+  - rewrite Hh. split; [|reflexivity]. cbn. apply nil_end_failed.
+  - rewrite Hh. split; [|reflexivity]. apply (nil_end_failed (S k)).
+  - destruct Hh as [k Hh]. rewrite Hh. split; reflexivity.
+Qed.
+
+(* calls in progress, length form of p1's inv_calls *)
+Lemma open_calls_reachable : forall nt T s n, reachable nt T s -> n < length nt ->
+  open_calls n (tr s) = length (filter is_wproc (ws (node s n))).
+Proof.
+  intros nt T s n HR Hn. apply ExecCount.count_inv_reachable in HR.
+  destruct HR as (_ & _ & _ & _ & _ & H6 & _).
+  assert (L1 : length (entered n (tr s)) = length (rets n (tr s)) + length (ExecCount.procs (ws (node s n)))).
+  { rewrite <- app_length. apply ExecBase.count_item_all_length. intro x.
+    rewrite ExecBase.count_item_app, <- ExecCount.procs_count. apply H6. }
+  rewrite ExecCount.procs_length in L1. unfold open_calls, is_wproc. lia.
+Qed.
+
+Theorem link_reachable : forall nt T s, wf_net nt = true -> reachable nt T s -> inv_link nt s.
+Proof.
+  intros nt T s Hwf HR.
+  destruct (link_core_reachable nt T s Hwf HR) as [K1 K2 K3 K4 K5 K6 K7 K8].
+  destruct (src_clauses s (ExecMain.source_history_reachable nt T s HR)) as [Knil Krun].
+  destruct (life'_reachable nt T s Hwf HR) as [Hs I].
+  constructor; auto.
+  - intros n Hn. eapply open_calls_reachable; eauto.
+  - intros r Hr Hc. pose proof (i_g7 _ _ I r Hr Hc) as Hp. unfold main_past_loop in Hp.
+    destruct (mn s); try discriminate; exact K8.
+Qed.
+
+Print Assumptions step_fp.
+Print Assumptions link_reachable.
